@@ -157,6 +157,25 @@ CHECKS = [
               "Bounds: quick = all sequences of 3 writes, off 0..4, len 1..3 + 300 random of 8 writes; thorough = all sequences "
               "of 4 writes, off 0..6, len 1..4 (614 656) + 20 000 random",
          technique="TLA+ model checking (TLC) + replay of TLC-enumerated and TLC-sampled write sequences on pkg/filetracker"),
+    dict(id="C17",
+         text="FuseRO.tla (bundle = file paths -> size/tag; nodes = entries + implied directories; LookupOp, AttrOp, ChildrenOp, "
+              "ReadDirOp with resume offsets, ReadOp; TreeIsExactlyBundle, ReadDirResumable for every ordering/start/capacity "
+              "sequence, ReadExact, UploadExact by exhaustive TLC); TLC enumerates every tiny bundle with the complete operation "
+              "table and samples random trees (nesting, siblings, empty/one-leaf/multi-leaf files, hostile names) with random "
+              "lookup/getattr/readdir(k,cap)/read(off,len) programs, each step carrying the operator's value; every bundle is "
+              "uploaded with core.Upload, mounted with fuse.NewReadOnlyFS pre-downloaded and streamed, and the program is run on "
+              "the mount's file system operation interface: inodes learnt from lookups (injective), listings with small buffers "
+              "resumed at the last offset = every child exactly once, reads byte for byte incl. past EOF",
+         design_ref="§3 C17",
+         note="Trusted: TLC, the harness' comparison code (self-tested in every run against an independent in-memory file system "
+              "inside the harness; disagreement = exit 2), the in-memory object stores (C16), the export hook "
+              "pkg/fuse/verif_export.go. Not through the kernel; single goroutine. Only type and size of the attributes; '.'/'..' "
+              "acceptable; order of listings and entry inodes observed only. The mounting client is given the bundle's leaf size. "
+              "The many-reads program runs under RLIMIT_NOFILE=1024 with the GC held off. Bounds: quick = all bundles of 0..2 "
+              "entries over 6 paths x sizes {0,7} cells with complete tables (57) + 60 random trees <= 6 entries x 20 ops + 1 400 "
+              "reads, leaf 64; thorough = 0..2 entries over 12 paths x {0,4,7} x 2 byte maps (1 100) + 500 random trees <= 60 "
+              "entries, depth <= 6, 40 ops, leaf 64 and 4096 + one directory with 1 000 siblings + 1 400 reads; both modes",
+         technique="TLA+ model checking (TLC) + replay of TLC-enumerated and TLC-sampled bundles/programs on pkg/fuse"),
     dict(id="C16",
          text="ObjectStore.tla is model-checked exhaustively over a hostile key set (pagination = one-page listing, sorted, "
               "duplicate free, exclusive winner); TLC-generated operation histories are replayed on the real localfs store with "
